@@ -17,7 +17,7 @@ func init() {
 		Prop:   "C15",
 		Run:    run,
 		Replay: replay,
-		Rule: "E1 over placements x prefix usages: modules a (prefix table: p->n1, q->n2) and b (p->n2, r->n1, a->a) are chosen so that the same prefix means different namespaces in the two modules and each module knows a prefix the other does not; a must, a when or a leafref path is placed directly in a, in a grouping of a used in a, in a grouping of a used from b, in an augment written in b into a's tree, in a typedef of a used from b (leafref), in a refine/augment inside b's uses of a's grouping, as a when on a uses of a foreign / local grouping or on an augment that contains a foreign uses, and in a deviation written in b; the expression is one of 26 (must, when) or 20 (leafref path) forms (prefix p / q / r / unknown, unprefixed, two prefixes, syntactically invalid forms from C04's reject set). " +
+		Rule: "E1 over placements x prefix usages: modules a (prefix table: p->n1, q->n2) and b (p->n2, r->n1, a->a) are chosen so that the same prefix means different namespaces in the two modules and each module knows a prefix the other does not; a must, a when or a leafref path is placed directly in a, in a grouping of a used in a, in a grouping of a used from b, in an augment written in b into a's tree, in a typedef of a used from b (leafref), in a refine/augment inside b's uses of a's grouping, as a when on a uses of a foreign / local grouping or on an augment that contains a foreign uses, and in a deviation written in b; the expression is one of 28 (must, when) or 22 (leafref path) forms (prefix p / q / r / unknown, unprefixed, two prefixes, syntactically invalid forms from C04's reject set). " +
 			"Expected verdict: compiles iff the expression is syntactically valid and every prefix is known in the module where the statement is textually written; the error must name that module's file. On success every Name-Push of the compiled machine must carry the namespace the textual module's import table gives (unprefixed: the namespace of the module the node ends up in) and GetExpr() must be the source text. Non-trivial = every case.",
 		Bound: map[string]string{"quick": "10 placements x 4 statement kinds (must, a second must after a valid one, when, leafref path) x 12 expressions; 4 placements of a when written on a uses / augment x 12 expressions; 4 placements x 9 kind pairs x 5x4 expression pairs x 2 orders with a second statement written in b itself", "thorough": "same"},
 		Assumptions: []string{"for statements added by a deviation the namespace of unprefixed names is UNSPECIFIED (the node stays in the target module, the text is in the deviating module)"},
@@ -37,6 +37,9 @@ var exprs = []expr{
 	{"r:x = 'v'", true, []string{"r"}, map[string]string{"x": "r"}},
 	{"zz:x = 'v'", true, []string{"zz"}, map[string]string{"x": "zz"}},
 	{"x = 'v'", true, nil, map[string]string{"x": ""}},
+	// the own prefix of module a (b imports a under the same prefix) and of module b (unknown in a)
+	{"a:x = 'v'", true, []string{"a"}, map[string]string{"x": "a"}},
+	{"b:x = a:y", true, []string{"b", "a"}, map[string]string{"x": "b", "y": "a"}},
 	{"../p:x/y = q:z", true, []string{"p", "q"}, map[string]string{"x": "p", "y": "", "z": "q"}},
 	{"p:x = ", false, nil, nil},
 	{"p:x == 'v'", false, nil, nil},
@@ -69,6 +72,8 @@ var paths = []expr{
 	{"../r:x", true, []string{"r"}, map[string]string{"x": "r"}},
 	{"../zz:x", true, []string{"zz"}, map[string]string{"x": "zz"}},
 	{"../x", true, nil, map[string]string{"x": ""}},
+	{"../a:x", true, []string{"a"}, map[string]string{"x": "a"}},
+	{"../b:x/a:y", true, []string{"b", "a"}, map[string]string{"x": "b", "y": "a"}},
 	{"/p:x/q:z[y = current()/../p:k]/w", true, []string{"p", "q"}, map[string]string{"x": "p", "z": "q", "y": "", "k": "p", "w": ""}},
 	{"../p:x/", false, nil, nil},
 	{"../p:x = 1", false, nil, nil},
@@ -258,6 +263,12 @@ func check(cr caseRec) (vs []engine.Violation, outcome string) {
 	for _, p := range e.Pfx {
 		if _, known := table[p]; !known {
 			want = false
+		}
+		if p == "a" && strings.HasPrefix(cr.Placement, "submodule-of-a") {
+			// the statement is written in a submodule and uses the prefix of its belongs-to statement.
+			// RFC 6020 7.2.2 makes that prefix usable, this compiler knows it nowhere (types, uses and
+			// expressions alike: "unknown import a"); the property speaks of imports only - unsettled
+			return nil, "unsettled-belongs-to-prefix"
 		}
 	}
 	var own expr
